@@ -47,7 +47,7 @@ def main():
             s["queries"] = obs.queries(M, beta, quads, susq, tri)
             scen.append(s)
             plan.append((m["id"], pn, s))
-    recs, crashed = pv.run_driver_resilient(exe, scen, timeout=3000)
+    recs, crashed = pv.run_driver_resilient(exe, scen, timeout=3000, scen_timeout=180)
     byid = {}
     for r in recs:
         if r.get("e") == "Q":
